@@ -20,14 +20,26 @@ class Stall(Exception):
     pass
 
 
-async def bounded(coro, what, turns=40000):
+def livelocked(taps):
+    """far more KEXINITs written than packets handed to send_packet: the endpoints do nothing but re-key"""
+    for t in (taps or {}).values():
+        k = sum(1 for e in t.events if e[0] == 'write' and e[1] == 20)
+        n = sum(1 for e in t.events if e[0] == 'send')
+        if k > 3 * n + 40:
+            return True
+    return False
+
+
+async def bounded(coro, what, turns=40000, taps=None):
     """await `coro` for a bounded number of event-loop turns (no wall-clock waiting: a stalled session -
-    which is how a broken re-key shows - must stay cheap)"""
+    which is how a broken re-key shows - must stay cheap); taps: callable giving the taps once they exist"""
     t = asyncio.ensure_future(coro)
     for i in range(turns):
         if t.done():
             return t.result()
         await asyncio.sleep(0 if i % 50 else 0.001)
+        if taps is not None and i % 200 == 199 and livelocked(taps()):
+            break
     t.cancel()
     raise Stall(what)
 
@@ -155,7 +167,7 @@ async def run_script(sc):
             ch, sess = await conn.create_session(CS, encoding=None)
             sess.idx = len(cchans)
             cchans.append(ch)
-        await bounded(open_chan(), 'opening the first channel (rekey limits already apply)')
+        await bounded(open_chan(), 'opening the first channel (rekey limits already apply)', taps=lambda: taps)
         await memwire.settle(10)
         wire.auto = False
         tasks = []
@@ -209,13 +221,15 @@ async def run_script(sc):
             await memwire.settle(4)
         # ---- drain: everything queued is delivered until both directions are quiet ------------------
         quiet = 0
-        for _ in range(3000):
+        for i in range(3000):
             moved = wire.deliver('c', 1) + wire.deliver('s', 1)
             await memwire.settle(4)
             quiet = 0 if moved else quiet + 1
-            if quiet >= 3:
+            if quiet >= 3 or (i % 100 == 99 and livelocked(taps)):
                 break
         res['drained'] = quiet >= 3
+        if not res['drained']:
+            res['problems'].append(('order', 'the session never became quiet: endpoints keep exchanging packets / re-keying'))
         for t in tasks:
             if not t.done():
                 res['problems'].append(('order', 'a channel open requested during the session never completed'))
@@ -375,7 +389,7 @@ async def run_busy(sc):
             cchans.append(ch)
             return ch
         for _ in range(sc['nchan']):
-            await bounded(open_chan(), 'opening a channel (rekey limits already apply)')
+            await bounded(open_chan(), 'opening a channel (rekey limits already apply)', taps=lambda: taps)
         nwr = [0]
 
         async def writer(side, idx, rounds):
@@ -424,8 +438,11 @@ async def run_busy(sc):
         def progress():
             return (sum(len(v) for v in streams.got.values()), len(wire.log['c']), len(wire.log['s']), done.done())
         last, quiet = progress(), 0
-        for _ in range(400000):
+        for i in range(400000):
             await asyncio.sleep(0)
+            if i % 500 == 499 and livelocked(taps):
+                res['problems'].append(('order', 'endpoints do nothing but re-key (far more KEXINITs than packets sent)'))
+                break
             cur = progress()
             if cur == last and not wire.q['c'] and not wire.q['s']:
                 quiet += 1
